@@ -22,6 +22,8 @@ pub struct Swarm {
     pub out_of_range: u8,
     pub multibyte: u8,
     pub crlf: Vec<bool>,
+    /// some line ends are a '\r' that no '\n' follows (the protocol's third line end)
+    pub lone_cr: bool,
     pub max_events: usize,
     pub rename_loops: bool,
     /// a second, disjoint workspace folder `fb/` with its own program
@@ -47,6 +49,7 @@ pub fn swarm(rng: &mut Rng) -> Swarm {
         out_of_range: rng.below(3) as u8,
         multibyte: rng.below(3) as u8,
         crlf: (0..8).map(|_| rng.chance(1, 3)).collect(),
+        lone_cr: rng.chance(1, 4),
         max_events: if rng.chance(1, 20) { rng.range(100, 300) } else { rng.range(5, 60) },
         rename_loops: rng.chance(1, 2),
         second_folder: rng.chance(1, 4),
@@ -100,11 +103,21 @@ pub fn inject_error(files: &Files, rng: &mut Rng) -> (&'static str, Files) {
         }
         11 => {
             // unexpected characters as the very last bytes: nothing follows, not even a newline
-            let t = f.get_mut(&any).unwrap();
-            while t.ends_with('\n') || t.ends_with('\r') || t.ends_with(' ') {
-                t.pop();
+            // (half of the time in the main module on a line of their own: invalid whatever
+            // the module holds, see `cli_sim::certainly_invalid`)
+            if rng.chance(1, 2) {
+                let t = f.get_mut("main.oal").unwrap();
+                if !t.ends_with('\n') {
+                    t.push_str(nl);
+                }
+                t.push_str(*rng.pick(&["^", "^^^"]));
+            } else {
+                let t = f.get_mut(&any).unwrap();
+                while t.ends_with('\n') || t.ends_with('\r') || t.ends_with(' ') {
+                    t.pop();
+                }
+                t.push_str(*rng.pick(&[" ^", "^^^", " \"never closed", " 😉"]));
             }
-            t.push_str(*rng.pick(&[" ^", "^^^", " \"never closed", " 😉"]));
             "lexical"
         }
         9 => {
@@ -214,10 +227,7 @@ fn pos_of(text: &str, off: usize, sw: &Swarm, rng: &mut Rng) -> Pos {
         // beyond the end of the line must clamp to the line's end
         let ls = position::line_starts(text);
         let li = p.line as usize;
-        let mut le = if li + 1 < ls.len() { ls[li + 1] - 1 } else { text.len() };
-        if le > ls[li] && li + 1 < ls.len() && text.as_bytes()[le - 1] == b'\r' {
-            le -= 1;
-        }
+        let le = position::line_content_end(text, &ls, li);
         if off == le {
             p.character += 1 + rng.below(9) as u32;
         }
@@ -588,6 +598,7 @@ pub fn plan(seed: u64, prop: &str, run: u64, sem: Sem) -> Plan {
         seed: wl.next_u64(),
         multibyte: if sw.aligned { 0 } else { sw.multibyte },
         crlf: sw.crlf.clone(),
+        lone_cr: sw.lone_cr,
         comments: !sw.aligned,
         shape: sw.shape,
     };
